@@ -1357,7 +1357,10 @@ class Index(DomainMapping):
 
     @property
     def _name_(self):
-        return f"{self._child_._var_._name_}[{self._key_}]"
+        # Building a query must not run user code, so only plain keys are rendered; other keys show their type.
+        key = self._key_
+        key_name = str(key) if type(key) in (int, float, str, bool, bytes) else type(key).__name__
+        return f"{self._child_._var_._name_}[{key_name}]"
 
 
 @dataclass(eq=False, repr=False)
